@@ -455,6 +455,10 @@ def check(ctx, rep):
 
     # one unreadable dependency manifest must not end the discovery of the others (they decide which store is written)
     rule_every_input_read(ctx, rep, modules=MANIFEST_MODULES, min_loops=1)
+    from .c15 import rule_report_complete
+
+    # the unfixed findings and failed files of a codemod reach the report whole (no filtering copy on the way)
+    rule_report_complete(ctx, rep)
     rep.not_covered += [
         "that other files get byte-identical outcomes under a fault (runtime behaviour)",
         "faults inside semgrep / result-file loading (raised before per-file processing)",
